@@ -30,9 +30,9 @@ CHECKS = {
    note="Not carried: unions, intersections, refinements (singleton/enum types), polymorphic containers, user classes and traits (structural_supertype_of / nominal_supertype_of: reaching them from these classes fails the harness), i.e. T <: (T or U), (T and U) <: T and 'enum type below its class' are outside. Arms of the table that bind erased payloads (Mono, Subr, Poly, FreeVar, ...) are R2-erased. Derived PartialEq on fieldless variants is structural.",
    technique=TECH_K),
  "C08": dict(engine="verus", category="proof",
-   text="PARTIAL: the lexer's primitives and its comment / raw-identifier / string lexers (erg_parser/lex.rs, Token::new in token.rs; real text, Verus). consume/peek_* return exactly the char at the cursor or None past the end; emit_singleline_token reports a token at the column and line where it begins; lex_comment, lex_raw_ident, lex_single_str, lex_multi_line_str and lex_interpolation_mid (with their bodies lex_*_) are total - no unwrap on None at end of input, no index or counter overflow, the interpolation stack is never popped below its sentinel - and terminate (decreases: remaining input); a comment swallows no newline; after a string token returned with Ok, whatever escape sequences or line breaks it contains, the column of the next token equals the number of source characters since the start of its line (pos_ok), and the token itself is reported at the column where it began.",
-   note="Not carried: the ~400-line operator match in Iterator::next (incl. the EOF arm that emits one Dedent per open indent), number and symbol lexing, lex_space_indent_dedent/lex_indent_dedent, op_fix; hence neither totality of the whole lexer nor 'as many dedents as indents' is claimed. Position faithfulness is claimed for Ok results (after a reported error positions are not claimed). Assumed: std contracts of String/Vec operations (wrappers), literal lengths computed by the rewriter (R9), that the two chars of a \\x escape are hex digits when w_hex_to_char is reached (checked by code, not tracked), source texts below 2**28 chars.",
-   technique=TECH_V + "; representation invariant lexer_wf and position invariant pos_ok/line_fresh; loop invariants and decreases spliced by loop ordinal"),
+   text="The WHOLE token iterator of the lexer (erg_parser/lex.rs Iterator::next with every function it calls; Token::new in token.rs; real text, Verus, for texts of up to 2**26-16 chars). One contract on Iterator::next, proved for every input: starting from the constructors' state (lemma_initial_state) every call keeps the invariant next_inv and never panics (no unwrap on None, no index, counter or column overflow, the interpolation stack never popped below its sentinel), returns None exactly after EOF, and every yielded item strictly decreases a natural-number measure, so `lex()` terminates with at most 2*(2*len+6) items. Indentation bookkeeping is exact: an Indent token opens exactly one level, a Dedent closes exactly one, no other Ok token touches the stack and EOF is only produced when every level is closed - an accepted text has as many Dedents as Indents. Positions: while the cursor is inside the text, every Ok step keeps pos_ok (column of the next token == number of source chars since the start of its line, line start exact), every token is emitted at the column/line recorded when its first char is consumed (emit_* contracts), after string literals with escapes, multi-line strings, comments, blank lines inside brackets and line continuations. The callees (consume/peek_*, emit_*, sync_col, accept, lex_comment, lex_multi_line_comment, lex_space_indent_dedent, lex_indent_dedent, lex_num/lex_num_dot/lex_ratio/lex_exponent/lex_bin/lex_oct/lex_hex, lex_symbol, lex_raw_ident, lex_single_str, lex_multi_line_str, lex_interpolation_mid, is_valid_*_symbol_ch, op_fix) are each under their own contract with loop invariants and decreases measures. A bounded replay of probe texts on the real lexer (position oracle: literal tokens are found in the source where they are reported) runs next to the proof in the thorough tier and as fallback.",
+   note="Iterator::next is verified as 36 arm-group copies of the same verbatim text and contract (R2c: every arm of the top-level match keeps its body in exactly one copy). NOT verified (replaced by stubs, listed in trusted_base): the keyword table of lex_symbol (match on str literals; any non-layout kind assumed), the closure-fold over the indent stack in lex_indent_dedent (only: sum over an empty stack is 0), is_definable_operator, is_zero, the TokenKind::category table content, unicode_xid predicates (assumed: never true for line break/space), std String/Vec operations (wrappers), literal lengths computed by the rewriter (R9). The constructors Lexer::new/from_str are checked textually against initial_state, not verified (normalize_newline, chars().collect()). Position faithfulness is claimed for Ok steps (after a reported error positions are not claimed) and for the column/line bookkeeping; that a token's CONTENT equals its source text is not carried (strings are abstracted by length). Texts above 2**26-16 chars are outside the claim. Stack depth is not modelled (the recursion that overflowed the stack was found by reading and is fixed; the unit now rejects recursion in next as 'undecided' and the replay probes cover it).",
+   technique=TECH_V + "; one step contract (step_ok) on Iterator::next with representation invariant next_inv, termination measure, indentation and position bookkeeping; loop invariants and decreases spliced by loop ordinal; vacuity probes"),
  "C11": dict(engine="verus+kani", category="proof",
    text="PARTIAL (binary operators and the operand of a prefix operator; member access, calls and parentheses are atoms): (Verus, real text of Parser::try_reduce_expr_above / try_reduce_expr / try_reduce_chunk / try_reduce_unary and collect_last_binop_on_stack, unbounded length) for every token sequence operand (op operand)* the operator-stack reduction returns the unique tree whose in-order token sequence is exactly the consumed input and in which every operator node has only operators of precedence >= its own in the left operand and > its own in the right operand (precedence order + left grouping, w.r.t. TokenKind::precedence), it stops only where no acceptable operator follows, the enum_unwrap!/compiler_bug arms are unreachable and the loops terminate; the operand of a prefix operator contains exactly the operators that bind at least as tightly as the prefix operator. (Kani, loop-free over all token kinds) TokenKind::precedence orders the operators exactly as the documented table (member access > ** > prefix > * / // % > + - > shifts > && > ^^ > || > ranges > comparisons > and > or), none of them is right-associative, brackets bind weaker than every operator.",
    note="Assumed: the contract of Parser::try_reduce_bin_lhs (returns one operand, an atom of this invocation's tree, consuming its tokens), peek/lpop as front/pop_front of the token stream, BinOp::new/UnaryOp::new/Expr::BinOp store their arguments. Executions through the other arms of the token match (lambda, type ascription, member access after a non-name receiver, subscript, tuple, default parameter, pipeline, definition, call without parentheses) are outside the proof (their guards are kept, their bodies assumed away). Lexer::op_fix (prefix/infix classification, minus before a literal), method calls and parentheses are covered only by the replay search (real lexer+parser against a reference precedence-climbing parser on ~15,000 expressions; thorough 60,000), which is bounded and not counted as proof.",
